@@ -48,6 +48,17 @@ class Ob:
         return 'Ob()'
 
 
+class CallableOb(Ob):
+    """the target itself can be called; one of its attributes is None (calling THAT must fail as in Python)"""
+    zz = None
+
+    def __call__(self, *a, **kw):
+        return ('the target itself was called', a, tuple(sorted(kw.items())))
+
+    def __repr__(self):
+        return 'CallableOb()'
+
+
 def mk_target(name):
     if name == 'int':
         return 7
@@ -61,6 +72,8 @@ def mk_target(name):
         return {'a': 2, 'f': Fn('f'), 'g': Fn('g', ValueError), 'l': [10, 11, 12], 0: 'zero'}
     if name == 'obj':
         return Ob()
+    if name == 'callable':
+        return CallableOb()
     if name == 'dictsub':
         return Lenient({'a': 2, 'l': [10, 11, 12], 0: 'zero', 'f': Fn('f')})
     raise ValueError(name)
@@ -81,7 +94,7 @@ class Lenient(dict):
         return ('missing', key)
 
 
-TARGETS = ['int', 'float', 'str', 'list', 'dict', 'obj', 'dictsub']
+TARGETS = ['int', 'float', 'str', 'list', 'dict', 'obj', 'dictsub', 'callable']
 
 # argument terms: {'lit': v} | {'T': ops} | {'spec': path} | {'list': [...]} | {'tuple': [...]} | {'slice': [a,b,c]}
 LIT = lambda v: {'lit': v}
